@@ -44,8 +44,10 @@ type message struct {
 	deadline time.Time
 }
 type queue struct {
-	// mu makes Ack's "check the expected type, then remove" atomic with respect to
-	// registrations and expiries of the same key; callbacks run outside of it.
+	// mu keeps the in-flight table and the timeout list in step: an entry and its timer
+	// are added and removed together, so that a registration, an acknowledgement and a
+	// sweep racing on one key can neither strand an entry without a timer nor leave a
+	// timer behind that would fire a later entry early. Callbacks run outside of it.
 	mu       sync.Mutex
 	msg      *gotomic.Hash
 	timeouts expiration.List
@@ -84,8 +86,8 @@ func (q *queue) Ack(prefix string, pkt packet.Packet) error {
 			return fmt.Errorf("unexpected packet type: wanted %v, got %v", msg.state, pkt.Type())
 		}
 		q.msg.Delete(k)
-		q.mu.Unlock()
 		q.timeouts.Delete(k, msg.deadline)
+		q.mu.Unlock()
 		msg.callback(false, msg.pkt, pkt)
 		return nil
 	default:
@@ -93,22 +95,23 @@ func (q *queue) Ack(prefix string, pkt packet.Packet) error {
 	}
 }
 func (q *queue) Expire(now time.Time) {
+	var expired []message
+	q.mu.Lock()
 	for _, v := range q.timeouts.Expire(now) {
 		key := v.(gotomic.StringKey)
-		q.mu.Lock()
-		m, ok := q.msg.Delete(key)
-		q.mu.Unlock()
-		if ok {
-			msg := m.(message)
-			msg.callback(true, msg.pkt, nil)
+		if m, ok := q.msg.Delete(key); ok {
+			expired = append(expired, m.(message))
 		}
+	}
+	q.mu.Unlock()
+	for _, msg := range expired {
+		msg.callback(true, msg.pkt, nil)
 	}
 }
 func (q *queue) push(k gotomic.Hashable, msg message) error {
 	q.mu.Lock()
-	added := q.msg.PutIfMissing(k, msg)
-	q.mu.Unlock()
-	if !added {
+	defer q.mu.Unlock()
+	if !q.msg.PutIfMissing(k, msg) {
 		return ErrDupMID
 	}
 	q.timeouts.Insert(k, msg.deadline)
